@@ -548,8 +548,15 @@ impl C10 {
         }
         let sw: f64 = w.iter().sum();
         rep.max(if case.f32m { "svr_sum_w_rel_f32" } else { "svr_sum_w_rel_f64" }, sw.abs() / (c_eff * n as f64));
-        if !(sw.abs() <= t.sum_rel * c_eff * n as f64) {
-            rep.fail("sum-to-zero", "svr-dual-feasibility", format!("{}: coefficients sum to {:e}", ctx, sw));
+        // every SMO step adds the same amount to one multiplier of each side (or clips one with an assignment and
+        // recomputes the other): in exact arithmetic the sum stays 0, in floating point each step contributes at most
+        // two roundings of a value <= C, and the n differences alpha_1 - alpha_0 one more each. Judged with 4x that;
+        // never looser than the flat bound used before.
+        let eps_t = if case.f32m { f32::EPSILON as f64 } else { f64::EPSILON };
+        let sum_tol = (t.sum_rel * c_eff * n as f64).min(4.0 * eps_t * (ticks.get() as f64 + n as f64 + 8.0) * c_eff);
+        rep.max(if case.f32m { "svr_sum_w_over_tol_f32" } else { "svr_sum_w_over_tol_f64" }, sw.abs() / sum_tol);
+        if !(sw.abs() <= sum_tol) {
+            rep.fail("sum-to-zero", "svr-dual-feasibility", format!("{}: coefficients sum to {:e} (more than {:e} after {} steps)", ctx, sw, sum_tol, ticks.get()));
         }
         // prediction = kernel expansion; optimality conditions at every training point
         let mut q: Vec<Vec<f64>> = xs.clone();
@@ -596,12 +603,19 @@ impl C10 {
                             tol_eff + 1e-9 * (yscale + mag)
                         };
                         let aw = wrow[i].abs();
+                        // "at the bound" means equal to C up to the representation of w (4 ulp of the element
+                        // type): the solver clips with an assignment, and tests `alpha < C` exactly, so anything
+                        // visibly below C is a free coefficient and must sit on the tube boundary
+                        let at_c = c_eff * (1.0 - 4.0 * if case.f32m { f32::EPSILON as f64 } else { f64::EPSILON });
+                        // signed residual: a positive coefficient belongs to a point on / above the upper edge of
+                        // the tube (y - f = +eps), a negative one to the lower edge
+                        let sr = if wrow[i] < 0.0 { -r } else { r };
                         let (ok, what, excess) = if aw == 0.0 {
                             (r.abs() <= eps_eff + slack, "zero weight but outside the tube", r.abs() - eps_eff)
-                        } else if aw >= c_eff * (1.0 - 1e-9) {
-                            (r.abs() >= eps_eff - slack, "|w| = C but strictly inside the tube", eps_eff - r.abs())
+                        } else if aw >= at_c {
+                            (sr >= eps_eff - slack, "|w| = C but strictly inside the tube (or beyond the opposite edge)", eps_eff - sr)
                         } else {
-                            ((r.abs() - eps_eff).abs() <= slack, "0 < |w| < C but not on the tube boundary", (r.abs() - eps_eff).abs())
+                            ((sr - eps_eff).abs() <= slack, "0 < |w| < C but not on its edge of the tube", (sr - eps_eff).abs())
                         };
                         rep.max(if case.f32m { "svr_kkt_excess_over_tol_f32" } else { "svr_kkt_excess_over_tol_f64" }, excess / tol_eff);
                         rep.max(if case.f32m { "svr_kkt_excess_over_slack_f32" } else { "svr_kkt_excess_over_slack_f64" }, excess / slack);
@@ -618,8 +632,12 @@ impl C10 {
             }
         }
         rep.count("probe.svr-all-zero-weights", inst.is_empty() as u64);
-        rep.count("probe.svr-weight-at-C", w.iter().any(|x| x.abs() >= c_eff * (1.0 - 1e-9)) as u64);
-        rep.count("probe.svr-free-weight", w.iter().any(|x| x.abs() > 0.0 && x.abs() < c_eff * (1.0 - 1e-9)) as u64);
+        rep.count("probe.svr-weight-at-C", w.iter().any(|x| x.abs() >= c_eff * (1.0 - 1e-15)) as u64);
+        rep.count("probe.svr-free-weight", w.iter().any(|x| x.abs() > 0.0 && x.abs() < c_eff * (1.0 - 1e-15)) as u64);
+        rep.count("probe.svr-weight-within-1e-9-below-C", w.iter().any(|x| x.abs() < c_eff * (1.0 - 1e-15) && x.abs() >= c_eff * (1.0 - 1e-9)) as u64);
+        rep.count("probe.svr-weight-between-1e-13-and-1e-12", w.iter().any(|x| x.abs() > 1e-13 && x.abs() <= 1e-12) as u64);
+        rep.count("probe.svr-weight-between-1e-16-and-1e-13", w.iter().any(|x| x.abs() > 1e-16 && x.abs() <= 1e-13) as u64);
+        rep.count("probe.svr-weight-tiny-nonzero", w.iter().any(|x| x.abs() > 0.0 && x.abs() < 1e-9 * c_eff) as u64);
         let mut st = Digest::new();
         st.f64s(&wrow.iter().map(|v| v.signum()).collect::<Vec<_>>());
         rep.states.push(st.get());
@@ -965,6 +983,53 @@ fn gen_case(batch: &str, index: u64, seed: u64) -> Case {
             let kernel = if pr.chance(0.7) { KSpec { kind: "rbf".into(), gamma: *pr.pick(&[0.5, 1.0]), degree: 0.0, coef0: 0.0 } } else { KSpec { kind: "linear".into(), gamma: 0.0, degree: 0.0, coef0: 0.0 } };
             Case { model: "svr".into(), x, y, kernel, c: *pr.pick(&[10.0, 100.0]), tol: *pr.pick(&[1e-3, 1e-4]), epoch: 0, eps: *pr.pick(&[0.0, 0.1]), f32m: true, queries: vec![], budget: 500_000_000, tape: TapeSpec::prng(tape_seed), kind: "svr-f32-resolution".into(), ctor: (seed % 2) as u8 }
         }
+        "svr-resonant" => {
+            // parameters tuned to the data. SMO moves coefficients to the unclipped optimum of a pair,
+            //     L(a,b) = (|y_a - y_b| - 2 eps) / (K_aa + K_bb - 2 K_ab),
+            // and clips at 0 and C. The interesting instants are those where a landing value meets a bound: C just
+            // above, just below or exactly at L (by 2^-j of its size, j = 20..52), and targets moved off a lattice by
+            // the same kind of amount (a step that would return a coefficient to exactly zero leaves ~1e-12 behind).
+            // Independently drawn C and data meet these with probability ~1e-12 per step.
+            let n = pr.usize_in(3, 8);
+            let p = pr.usize_in(1, 2);
+            let lattice = pr.chance(0.75);
+            let mut x: Vec<Vec<f64>> = vec![];
+            while x.len() < n {
+                let row: Vec<f64> = (0..p).map(|_| if lattice { 0.5 * r.below(9) as f64 } else { r.range(0.0, 4.0) }).collect();
+                if !x.contains(&row) {
+                    x.push(row);
+                }
+            }
+            let mut y: Vec<f64> = (0..n).map(|_| if lattice { 0.25 * (r.below(17) as f64 - 8.0) } else { r.range(-2.0, 2.0) }).collect();
+            let eps = if lattice { *pr.pick(&[0.0, 0.125, 0.25, 0.5]) } else { pr.range(0.0, 0.5) };
+            let kernel = if pr.chance(0.7) { KSpec { kind: "linear".into(), gamma: 0.0, degree: 0.0, coef0: 0.0 } } else { gen_kernel(&mut pr, true, true) };
+            let grid = *pr.pick(&[0.125, 0.25, 0.5, 1.0, 2.0]);
+            let mut base = grid;
+            if pr.chance(0.7) {
+                let a = pr.below(n as u64) as usize;
+                let b = (a + 1 + pr.below(n as u64 - 1) as usize) % n;
+                let curv = kref(&kernel, &x[a], &x[a]) + kref(&kernel, &x[b], &x[b]) - 2.0 * kref(&kernel, &x[a], &x[b]);
+                let l = ((y[a] - y[b]).abs() - 2.0 * eps) / curv;
+                if l.is_finite() && l >= 0.02 && l <= 4.0 {
+                    base = l;
+                }
+            }
+            let j = pr.usize_in(20, 52) as i32;
+            let c = match pr.below(4) {
+                0 => base,
+                1 => base * (1.0 - (2.0f64).powi(-j)),
+                _ => base * (1.0 + (2.0f64).powi(-j)),
+            };
+            if pr.chance(0.4) {
+                let at = pr.below(n as u64) as usize;
+                let jj = pr.usize_in(30, 52) as i32;
+                let d = (2.0f64).powi(-jj) * (1.0 + 7.0 * pr.f64());
+                y[at] += if pr.chance(0.5) { d } else { -d };
+            }
+            let nq = pr.usize_in(0, 2);
+            let queries = (0..nq).map(|_| (0..p).map(|_| r.range(0.0, 4.0)).collect()).collect();
+            Case { model: "svr".into(), x, y, kernel, c, tol: *pr.pick(&[1e-2, 1e-3]), epoch: 0, eps, f32m: false, queries, budget: 500_000_000, tape: TapeSpec::prng(tape_seed), kind: "svr-resonant".into(), ctor: (seed % 2) as u8 }
+        }
         "svr" | "svr-f32" => {
             let n = pr.usize_in(4, 40);
             let p = pr.usize_in(1, 5);
@@ -1074,6 +1139,7 @@ impl Property for C10 {
             Batch { name: "svc-forced", count: if q { 16_000 } else { 800_000 }, simulated: true, exhaustive: false, note: "forced identity / reverse / one-class-first / rotated orders for every pass" },
             Batch { name: "svc-f32", count: if q { 8_000 } else { 400_000 }, simulated: true, exhaustive: false, note: "single precision, tolerances scaled" },
             Batch { name: "svr", count: if q { 12_000 } else { 600_000 }, simulated: false, exhaustive: false, note: "schedule-free ride-along: SVR draws nothing; linear / RBF / polynomial degree<=2, C<=10, n<=40; termination judged by state-cycle detection over the tick hook's state digests (step budget only as fallback)" },
+            Batch { name: "svr-resonant", count: if q { 20_000 } else { 1_000_000 }, simulated: false, exhaustive: false, note: "schedule-free: tiny lattice / continuous fits whose C is tuned to the data — equal to, or 2^-j (j 20..52) above or below, the unclipped pair optimum of two training rows — and whose targets sit 2^-j off the lattice: the instants where an SMO step lands on a bound" },
             Batch { name: "svr-hard", count: if q { 48 } else { 1_500 }, simulated: false, exhaustive: false, note: "schedule-free: the slowly converging corner (C = 100, linear / quadratic / RBF kernels on features in [-3,3], n 20..60, tol 1e-3) with a 4e9-iteration fallback budget; few runs because each takes up to seconds" },
             Batch { name: "svr-hard-tight", count: if q { 12 } else { 600 }, simulated: false, exhaustive: false, note: "same corner at tol 1e-4, quadratic kernel, low noise (up to ~2e7 iterations per fit)" },
             Batch { name: "svr-large-features", count: if q { 1_500 } else { 60_000 }, simulated: false, exhaustive: false, note: "schedule-free: large kernel curvature (linear kernel on features of magnitude 30..300, quadratic on ~10), noise below epsilon, f32 and f64" },
